@@ -164,15 +164,19 @@ func (x *runner) session(base *gorm.DB, st Step) *gorm.DB {
 
 // Outcomes of a block body.
 const (
-	outNil      = "nil"             // return nil
-	outErr      = "err"             // return error E(block id)
-	outPanic    = "panic"           // panic(P(block id))
-	outErrU     = "erru"            // return an error whose dynamic type is not comparable (a struct with a slice)
-	outPanicNil = "panicnil"        // panic(nil)
-	outGoexit   = "goexit"          // runtime.Goexit() (what t.FailNow does): the whole goroutine unwinds
-	outCommit   = "commit"          // manual: tx.Commit()
-	outRollback = "rollback"        // manual: tx.Rollback()
-	outCommitRB = "commit+rollback" // manual: defer tx.Rollback(); …; tx.Commit() – the Rollback after the Commit changes nothing
+	outNil            = "nil"             // return nil
+	outErr            = "err"             // return error E(block id)
+	outPanic          = "panic"           // panic(P(block id))
+	outErrU           = "erru"            // return an error whose dynamic type is not comparable (a struct with a slice)
+	outPanicNil       = "panicnil"        // panic(nil)
+	outGoexit         = "goexit"          // runtime.Goexit() (what t.FailNow does): the whole goroutine unwinds
+	outCommit         = "commit"          // manual: tx.Commit()
+	outRollback       = "rollback"        // manual: tx.Rollback()
+	outRollbackNil    = "rollback+nil"    // outermost block: tx.Rollback() by hand, then return nil: the Commit that follows fails (sql.ErrTxDone)
+	outCancelNil      = "cancel+nil"      // outermost block started WithContext(ctx): cancel ctx, wait until database/sql has rolled back, return nil
+	outRollbackCommit = "rollback+commit" // manual: tx.Rollback(); tx.Commit(): the Commit fails
+	outCancelCommit   = "cancel+commit"   // manual begun WithContext(ctx): cancel ctx, wait for the rollback, tx.Commit(): the Commit fails
+	outCommitRB       = "commit+rollback" // manual: defer tx.Rollback(); …; tx.Commit() – the Rollback after the Commit changes nothing
 )
 
 type Step struct {
@@ -182,6 +186,7 @@ type Step struct {
 	Reuse     bool   // put/upd/del: then read through result.Session(&gorm.Session{NewDB: true}) of the handle the write returned
 	Via       int    // 0: the step goes through the block's own handle; n: through the handle of the n-th enclosing block (a captured variable – the same database transaction)
 	Cached    bool   // the derived session is kept and used again by later steps that ask for the same kind from the same handle
+	CtxCancel bool   // nested block: started as h.WithContext(ctx2).Transaction(…); ctx2 is cancelled at the end of the block function, just before its outcome
 	Conn      bool   // top level: the step runs inside db.Connection(func(c) …) on the dedicated connection handle c
 	Opts      string // block / manual: the *sql.TxOptions argument ("" none, "nil", "zero", "serializable")
 	Read      string // read: how ("" Find, "rawscan", "rows", "count", "subquery")
@@ -305,6 +310,9 @@ func (s Step) render(sb *strings.Builder) {
 		fmt.Fprintf(sb, "%s(%s)", s.Op, s.Name)
 	case opBlock:
 		sb.WriteString("T" + via)
+		if s.CtxCancel {
+			sb.WriteString("(ctx2-cancelled-at-end)")
+		}
 		s.Child.render(sb)
 		if s.Swallow {
 			sb.WriteString("/swallow")
@@ -429,7 +437,7 @@ func (w *walker) steps(b *Body, kind int) int {
 			}
 			o := w.steps(st.Child, frManual)
 			w.depth--
-			if o == 0 && st.Child.Out != outRollback {
+			if o == 0 && (st.Child.Out == outCommit || st.Child.Out == outCommitRB) {
 				w.commits++
 			}
 		case opBlock:
@@ -474,6 +482,8 @@ func (w *walker) steps(b *Body, kind int) int {
 		return 2
 	case outGoexit:
 		return 3
+	case outRollbackNil, outCancelNil:
+		return 4 // ends without a COMMIT, Transaction returns the error of the refused Commit
 	}
 	return 0
 }
@@ -533,8 +543,9 @@ type spEntry struct {
 }
 
 type frame struct {
-	kind int
-	sps  []spEntry
+	kind  int
+	sps   []spEntry
+	atEnd func() // runs when the steps are done, just before the outcome
 }
 
 type runner struct {
@@ -555,6 +566,9 @@ type runner struct {
 
 	attrs    map[*gorm.DB]attr
 	sessions map[sessKey]*gorm.DB
+	cancelTx func()         // cancels the context the running outermost transaction was begun with
+	txKilled bool           // the running outermost transaction has been finished behind Commit's back (manual Rollback / cancelled context)
+	excluded string         // the case turned out to be in a listed known-finding class
 	goexit   bool           // the program has called runtime.Goexit: the goroutine is unwinding
 	handles  []*gorm.DB     // handles of the blocks that are running, outermost first
 	active   []*activeBlock // Transaction blocks that are running
@@ -925,6 +939,31 @@ func (x *runner) batch(h *gorm.DB, st Step, where string, inTx bool) (bool, erro
 	return true, err
 }
 
+// killByContext cancels the context the outermost transaction was begun with and
+// waits until database/sql's background goroutine has rolled the transaction
+// back (the driver's open-transaction counter drops), so that what follows does
+// not depend on timing.
+func (x *runner) killByContext() {
+	if x.cancelTx == nil {
+		x.harnessEr = "cancel outcome without a cancellable context"
+		return
+	}
+	x.cancelTx()
+	deadline := time.Now().Add(hangAfter)
+	for x.db.Rec.OpenTx() != 0 || x.db.SQL.Stats().InUse != 0 {
+		if time.Now().After(deadline) {
+			x.harnessEr = "database/sql did not roll the transaction back after its context was cancelled"
+			return
+		}
+		time.Sleep(50 * time.Microsecond)
+	}
+	x.txKilled = true
+}
+
+func refusedCommit(err error) bool {
+	return errors.Is(err, sql.ErrTxDone) || errors.Is(err, context.Canceled)
+}
+
 // runSteps is the function body of block b running on handle h. It returns
 // what the block function returns and panics with *panicVal for outcome panic.
 func (x *runner) runSteps(own *gorm.DB, b *Body, fr *frame) error {
@@ -1003,7 +1042,7 @@ func (x *runner) runSteps(own *gorm.DB, b *Body, fr *frame) error {
 				}
 			}
 		case opBlock:
-			kind, v, pv := x.callBlock(h, st.Child, false, st.Opts)
+			kind, v, pv := x.callBlock(h, st.Child, false, st.Opts, st.CtxCancel)
 			switch kind {
 			case 1:
 				if !st.Swallow {
@@ -1028,7 +1067,21 @@ func (x *runner) runSteps(own *gorm.DB, b *Body, fr *frame) error {
 			}
 		}
 	}
+	if fr.atEnd != nil {
+		fr.atEnd()
+	}
 	switch b.Out {
+	case outRollbackNil:
+		x.class("outcome:manual-rollback-then-return-nil")
+		if e := own.Rollback().Error; e != nil {
+			x.violate("%s: Rollback inside the block: unexpected error %q", where, e)
+		}
+		x.txKilled = true
+		return nil
+	case outCancelNil:
+		x.class("outcome:context-cancelled-then-return-nil")
+		x.killByContext()
+		return nil
 	case outErr:
 		x.class("outcome:error")
 		return &blockErr{b.ID}
@@ -1061,13 +1114,27 @@ func txOptions(kind string) []*sql.TxOptions {
 		return []*sql.TxOptions{{}}
 	case "serializable":
 		return []*sql.TxOptions{{Isolation: sql.LevelSerializable}}
+	case "readonly":
+		// (the SQLite driver ignores it: writes work and must be durable once the block returned nil)
+		return []*sql.TxOptions{{ReadOnly: true}}
 	}
 	return nil
 }
 
-func (x *runner) callBlock(h *gorm.DB, child *Body, root bool, opts string) (int, error, interface{}) {
+func (x *runner) callBlock(h *gorm.DB, child *Body, root bool, opts string, ctxCancel bool) (int, error, interface{}) {
 	if opts != "" {
 		x.class("txoptions:" + opts)
+	}
+	var atEnd func()
+	if ctxCancel && !root {
+		// h.WithContext(ctx2).Transaction(…) with ctx2 cancelled when the block function is done
+		x.class("block:nested-started-WithContext-cancelled-at-end")
+		ctx2, cancel2 := context.WithCancel(context.Background())
+		defer cancel2()
+		base := h
+		h = base.WithContext(ctx2)
+		x.inherit(h, base)
+		atEnd = cancel2
 	}
 	where := fmt.Sprintf("Transaction #%d", child.ID)
 	snap := clone(x.cur)
@@ -1120,6 +1187,18 @@ func (x *runner) callBlock(h *gorm.DB, child *Body, root bool, opts string) (int
 		fired := x.takeFired()
 
 		undo := root || !x.noNest(h)
+		undoIt := func() {
+			if !undo {
+				return
+			}
+			if atEnd != nil {
+				x.class("shape:failed-nested-block-whose-context-is-cancelled-must-be-undone")
+				if harness.OpenClass("C04", "nested-context-cancelled") {
+					x.excluded = "nested-context-cancelled"
+				}
+			}
+			x.cur = snap
+		}
 		if root {
 			x.class("block:outermost")
 		} else if x.noNest(h) {
@@ -1165,9 +1244,7 @@ func (x *runner) callBlock(h *gorm.DB, child *Body, root bool, opts string) (int
 			if fired {
 				x.harnessEr = "fault fired after Goexit"
 			}
-			if undo {
-				x.cur = snap
-			}
+			undoIt()
 			return 3, nil, nil
 		case fcPanicked:
 			failedAfterInner()
@@ -1175,9 +1252,7 @@ func (x *runner) callBlock(h *gorm.DB, child *Body, root bool, opts string) (int
 			if fired {
 				x.harnessEr = "fault fired after a panicking block function"
 			}
-			if undo {
-				x.cur = snap
-			}
+			undoIt()
 			if !outPanicked {
 				x.violate("%s: the block function panicked with %v but Transaction returned normally (%v): the panic was swallowed", where, fcPanic, cerr)
 				return 1, fmt.Errorf("swallowed panic"), nil
@@ -1192,9 +1267,7 @@ func (x *runner) callBlock(h *gorm.DB, child *Body, root bool, opts string) (int
 			if fired {
 				x.harnessEr = "fault fired after a failing block function"
 			}
-			if undo {
-				x.cur = snap
-			}
+			undoIt()
 			if outPanicked {
 				x.violate("%s: the block function returned %q but Transaction panicked with %v", where, fcRet, outPanic)
 				return 2, nil, outPanic
@@ -1212,6 +1285,24 @@ func (x *runner) callBlock(h *gorm.DB, child *Body, root bool, opts string) (int
 		if outPanicked {
 			x.violate("%s: the block function returned nil but Transaction panicked with %v", where, outPanic)
 			return 2, nil, outPanic
+		}
+		if root && x.txKilled {
+			// the transaction was finished before Commit ran (Rollback by hand / cancelled context):
+			// the Commit is refused, nothing is durable and the error comes back
+			x.txKilled = false
+			x.noteFailure()
+			x.cur = snap
+			if fired {
+				x.harnessEr = "fault fired in a refused COMMIT"
+			}
+			if cerr == nil {
+				x.violate("%s: the transaction had been rolled back before the block function returned nil, yet Transaction returned nil: nothing is durable but no error is reported", where)
+				return 1, sql.ErrTxDone, nil
+			}
+			if !refusedCommit(cerr) {
+				x.violate("%s: the transaction had been rolled back before Commit; Transaction returned %q, want sql.ErrTxDone", where, cerr)
+			}
+			return 1, cerr, nil
 		}
 		if root && fired {
 			// COMMIT failed: nothing is durable and the error comes back
@@ -1256,7 +1347,7 @@ func (x *runner) callBlock(h *gorm.DB, child *Body, root bool, opts string) (int
 				fcPanicked, fcPanic = true, r
 				panic(r)
 			}()
-			e = x.runSteps(tx, child, &frame{kind: frNested})
+			e = x.runSteps(tx, child, &frame{kind: frNested, atEnd: atEnd})
 			normal = true
 			fcRet = e
 			return e
@@ -1344,6 +1435,28 @@ func (x *runner) manual(h *gorm.DB, b *Body, opts string) {
 		return
 	}
 	switch b.Out {
+	case outRollbackCommit, outCancelCommit:
+		if b.Out == outRollbackCommit {
+			x.class("outcome:manual-rollback-then-commit")
+			if e := tx.Rollback().Error; e != nil {
+				x.violate("%s: Rollback: unexpected error %q", where, e)
+			}
+		} else {
+			x.class("outcome:manual-context-cancelled-then-commit")
+			x.killByContext()
+		}
+		x.txKilled = false
+		x.noteFailure()
+		x.cur = snap
+		e := tx.Commit().Error
+		if x.takeFired() {
+			x.harnessEr = "fault fired in a refused COMMIT"
+		}
+		if e == nil {
+			x.violate("%s: the transaction had been rolled back before Commit, yet Commit().Error is nil: nothing is durable but no error is reported", where)
+		} else if !refusedCommit(e) {
+			x.violate("%s: the transaction had been rolled back before Commit; Commit().Error is %q, want sql.ErrTxDone", where, e)
+		}
 	case outCommit, outCommitRB:
 		e := tx.Commit().Error
 		if b.Out == outCommitRB {
@@ -1383,6 +1496,7 @@ type result struct {
 	harnessErr string
 	classes    []string
 	nontrivial bool
+	excluded   string
 }
 
 // runCase executes the case on a fresh database and returns the violations.
@@ -1436,15 +1550,24 @@ func runCase(c Case) result {
 	// top level: steps on the root handle
 	for _, st := range c.Top.Steps {
 		root := d.DB
+		x.cancelTx = nil
 		if st.Sess != "" {
 			root = x.session(d.DB, st)
 			x.class("session:" + st.Sess)
 			x.class("session:" + st.Sess + ":top-level-" + st.Op)
 		}
+		if st.Child != nil && (st.Child.Out == outCancelNil || st.Child.Out == outCancelCommit) {
+			ctx, cancel := context.WithCancel(context.Background())
+			defer cancel()
+			base := root
+			root = base.WithContext(ctx)
+			x.inherit(root, base)
+			x.cancelTx = cancel
+		}
 		runTop := func() {
 			switch st.Op {
 			case opBlock:
-				kind, _, pv := x.callBlock(root, st.Child, true, st.Opts)
+				kind, _, pv := x.callBlock(root, st.Child, true, st.Opts, false)
 				if kind == 2 && pv != nil {
 					if _, ok := pv.(*panicVal); !ok {
 						panic(pv)
@@ -1590,7 +1713,7 @@ func runCase(c Case) result {
 		cl = append(cl, k)
 	}
 	sort.Strings(cl)
-	return result{viols: x.viols, harnessErr: x.harnessEr, classes: cl, nontrivial: nt}
+	return result{viols: x.viols, harnessErr: x.harnessEr, classes: cl, nontrivial: nt, excluded: x.excluded}
 }
 
 func stepString(s Step) string {
@@ -1761,7 +1884,7 @@ func (g *gen) sess(percent int) string {
 }
 
 func (g *gen) opts() string {
-	return []string{"", "", "", "", "", "nil", "zero", "serializable"}[uniform(g.rt, "txopts", 8)]
+	return []string{"", "", "", "", "", "nil", "zero", "serializable", "readonly", "readonly"}[uniform(g.rt, "txopts", 10)]
 }
 
 // normalize moves the "kept session" mark of the generator into Step.Cached.
@@ -1844,7 +1967,7 @@ func (g *gen) body(depth int, manual bool) *Body {
 			g.startIdx = append(g.startIdx, depth-1-v)
 			ch := g.body(depth+1, false)
 			g.startIdx = g.startIdx[:len(g.startIdx)-1]
-			b.Steps = append(b.Steps, Step{Op: opBlock, Child: ch, Via: v, Sess: g.sess(20), Opts: g.opts(),
+			b.Steps = append(b.Steps, Step{Op: opBlock, Child: ch, Via: v, Sess: g.sess(20), Opts: g.opts(), CtxCancel: uniform(g.rt, "ctx2", 8) == 7,
 				Swallow: uniform(g.rt, "swallow", 3) < 2,
 				Recover: rapid.Bool().Draw(g.rt, "recover")})
 		case r < spBelow:
@@ -1872,10 +1995,14 @@ func (g *gen) body(depth int, manual bool) *Body {
 		}
 	}
 	if manual {
-		b.Out = []string{outCommit, outCommit, outRollback, outCommitRB}[uniform(g.rt, "end", 4)]
+		b.Out = []string{outCommit, outCommit, outCommit, outRollback, outRollback, outCommitRB, outRollbackCommit, outCancelCommit}[uniform(g.rt, "end", 8)]
 	} else {
 		outs := []string{outNil, outNil, outNil, outNil, outNil, outNil, outNil, outErr, outErr, outErr, outErrU, outPanic, outPanic, outPanic, outPanicNil, outGoexit}
 		b.Out = outs[uniform(g.rt, "outcome", len(outs))]
+		if depth == 1 && uniform(g.rt, "killed", 8) == 7 {
+			// only the outermost block can finish its transaction behind Commit's back
+			b.Out = []string{outRollbackNil, outCancelNil}[uniform(g.rt, "how", 2)]
+		}
 	}
 	return b
 }
@@ -1928,6 +2055,13 @@ func genCase(rt *rapid.T) Case {
 		c.Top.Steps = append(c.Top.Steps, st)
 	}
 	normalize(&c.Top)
+	for i := range c.Top.Steps {
+		// (inside db.Connection the dedicated connection stays checked out, which the wait for the
+		// background rollback of a cancelled context looks at: keep the two apart)
+		if ch := c.Top.Steps[i].Child; ch != nil && (ch.Out == outCancelNil || ch.Out == outCancelCommit) {
+			c.Top.Steps[i].Conn = false
+		}
+	}
 	// fault plan: aim at a call that exists in the fault-free run
 	w := walk(c)
 	kinds := []string{fNone, fNone, fBegin, fCommit, fSavepoint, fSavepoint, fStmt, fStmt, fStmt}
@@ -1996,7 +2130,7 @@ func ownSavepoints(b *Body) {
 }
 
 const rule = "C04: programs on a key→value table: 1-3 top-level steps (db.Transaction tree of depth ≤4, manual Begin…Commit/Rollback, single write/read), " +
-	"block bodies of put/rawput/upd/del/read/SavePoint/RollbackTo/child-block/CreateInBatches steps (CreateInBatches opens its own block; a batch fails by fault or by a repeated key) ending in return nil | return error | panic(value) | panic(nil) | runtime.Goexit(), parents returning or swallowing a child's error " +
+	"block bodies of put/rawput/upd/del/read/SavePoint/RollbackTo/child-block/CreateInBatches steps (CreateInBatches opens its own block; a batch fails by fault or by a repeated key) ending in return nil | return error | panic(value) | panic(nil) | runtime.Goexit() (outermost blocks and manual programs also: Rollback by hand or cancelled context, then return nil / Commit; nested blocks also started WithContext(ctx2) with ctx2 cancelled at the end), parents returning or swallowing a child's error " +
 	"and optionally recovering its panic, every step inside a block going through the block's own handle or the captured handle of any enclosing block (same transaction), optionally through a session derived from that handle (Session{PrepareStmt}, Session{}, Session{NewDB}, WithContext, Session{SkipHooks}, Session{Logger}); manual save point names short, long (67-110 bytes sharing the first 64+ bytes), with digits/underscores/mixed case, private per block; configuration bits PrepareStmt, DisableNestedTransaction, SkipDefaultTransaction (the last two also per Session), CreateBatchSize, TranslateError, RETURNING support; blocks and manual programs with and without *sql.TxOptions and inside db.Connection; fault plan none or the k-th BEGIN/COMMIT/SAVEPOINT/statement/PREPARE " +
 	"driver call fails (never ROLLBACK / ROLLBACK TO); non-trivial = nesting depth ≥2 reached and at least one failure (block returning an error or panicking, fired fault) with successful writes both before and after it; " +
 	"distinct = configuration + fault plan + initial rows + program text"
@@ -2011,6 +2145,11 @@ func checkCase(t interface {
 	}
 	evid.Journal(desc)
 	res := runCase(c)
+	if res.excluded != "" && res.harnessErr == "" {
+		// the run reached a shape of a listed open finding: not a case of the check (counted)
+		evid.Excluded(res.excluded)
+		return
+	}
 	evid.Case(desc, res.nontrivial, nil, res.classes...)
 	if res.harnessErr != "" {
 		t.Fatalf("harness: %s, case: %s", res.harnessErr, desc)
@@ -2072,6 +2211,60 @@ func TestC04WitnessSavepointPoison(t *testing.T) {
 		}
 		if err == nil && table != "{a=1,b=2}" {
 			t.Errorf("prepare=%v: outermost Transaction returned nil but the table is %s, want {a=1,b=2}", prepare, table)
+		}
+		d.Close()
+	}
+}
+
+// A nested block started from tx.WithContext(ctx2) whose context is cancelled
+// when the block fails: DB.Transaction issues the ROLLBACK TO SAVEPOINT through
+// the same handle, i.e. with the dead context, database/sql refuses to run it and
+// the deferred function ignores the result: the failed block's writes stay in the
+// enclosing transaction, which commits them.
+func TestC04WitnessNestedContextRollback(t *testing.T) {
+	for _, prepare := range []bool{false, true} {
+		d := testdb.Open(testdb.Options{Config: gorm.Config{PrepareStmt: prepare}})
+		if _, err := d.SQL.Exec("CREATE TABLE kv (k TEXT PRIMARY KEY, v INTEGER NOT NULL)"); err != nil {
+			t.Fatalf("harness: %v", err)
+		}
+		d.Rec.Reset()
+		innerFailed := errors.New("inner failed")
+		var childErr error
+		var seen string
+		err := d.Transaction(func(tx *gorm.DB) error {
+			if e := tx.Create(&KV{K: "a", V: 1}).Error; e != nil {
+				return e
+			}
+			ctx2, cancel2 := context.WithCancel(context.Background())
+			childErr = tx.WithContext(ctx2).Transaction(func(tx2 *gorm.DB) error {
+				if e := tx2.Create(&KV{K: "b", V: 2}).Error; e != nil {
+					return e
+				}
+				cancel2() // e.g. the deadline of this unit of work expires
+				return innerFailed
+			})
+			var rows []KV
+			if e := tx.Order("k").Find(&rows).Error; e != nil {
+				return e
+			}
+			seen = renderRows(rows)
+			return nil // the failure of the nested block is handled here
+		})
+		table, rerr := rawTable(d.SQL)
+		if rerr != nil {
+			t.Fatalf("harness: %v", rerr)
+		}
+		if !errors.Is(childErr, innerFailed) {
+			t.Errorf("prepare=%v: nested block returned %v, want its own error", prepare, childErr)
+		}
+		if err != nil {
+			t.Errorf("prepare=%v: outermost Transaction returned %v", prepare, err)
+		}
+		if seen != "{a=1}" {
+			t.Errorf("prepare=%v: after the failed nested block the enclosing transaction sees %s, want {a=1} (the nested block's write was not undone)", prepare, seen)
+		}
+		if table != "{a=1}" {
+			t.Errorf("prepare=%v: durable table is %s, want {a=1}: the write of the failed nested block was committed", prepare, table)
 		}
 		d.Close()
 	}
